@@ -261,10 +261,17 @@ func resetTerms() {
 
 // mkVar creates (or returns) the named variable; vs optionally restricts its values.
 func mkVar(name string, s Sort, vs []uint64) *Term {
-	if t, ok := tt.vars[name]; ok {
-		if t.sort != s {
-			panic("mkVar: sort clash for " + name)
+	// the same tag may be used with different alphabets on different paths of an instance:
+	// such variables are distinct
+	if vs != nil && len(vs) <= maxVS {
+		sig := uint64(1469598103934665603)
+		for _, v := range vs {
+			sig = (sig ^ v) * 1099511628211
 		}
+		name = fmt.Sprintf("%s~%x", name, sig&0xffffff)
+	}
+	name = fmt.Sprintf("%s:%d", name, s)
+	if t, ok := tt.vars[name]; ok {
 		return t
 	}
 	t := tt.mk(OpVar, s, 0, name)
@@ -431,6 +438,11 @@ func mkIte(c, x, y *Term) *Term {
 	}
 	if x.op == OpIte && x.a[0] == c {
 		return mkIte(c, x.a[1], y)
+	}
+	if x.sort != SBool && x.sort != SFP64 {
+		if u := unionVS(x.vs, y.vs); len(u) == 1 {
+			return mkConst(x.sort, u[0])
+		}
 	}
 	t := tt.mk(OpIte, x.sort, 0, "", c, x, y)
 	if t.vs == nil && x.sort != SBool && x.sort != SFP64 {
